@@ -20,6 +20,7 @@ inductive CStmt
   | ifRequireAck (thn : List CStmt)           -- if c.RequireAck { … }
   | ifTimeout (thn : List CStmt)              -- if c.Timeout != 0 { … }
   | chunk                                     -- if chunk, err = e.Chunk(); err != nil { return err }
+  | ifChunkEmpty (thn : List CStmt)           -- if chunk == "" { … }
   | encode                                    -- var buf bytes.Buffer; if err = msgp.Encode(&buf, e); err != nil { return err }
   | writeAllThen (s : Src)                    -- if err = writeAll(c.session.Connection, …); err != nil || !c.RequireAck { return err }
   | retWriteAll (s : Src)                     -- return writeAll(c.session.Connection, …)
@@ -103,6 +104,7 @@ def cexec (H : Bytes → Bytes) (cfg : Cfg) (i : In) (callee : Callees) : CStmt 
   | .ifRequireAck thn, k, l => if cfg.requireAck then cexecs H cfg i callee thn k l else k l
   | .ifTimeout thn, k, l => if cfg.timeout then cexecs H cfg i callee thn k l else k l
   | .chunk, k, l => if i.chunkErr then (l.st, .err) else k l
+  | .ifChunkEmpty thn, k, l => if i.chunk = [] then cexecs H cfg i callee thn k l else k l
   | .encode, k, l =>
     match i.encoding with
     | some e => k { l with buf := some e }
